@@ -91,6 +91,11 @@ fn content(seed: &Seed, normed: bool) -> (Vec<u8>, Vec<u8>) {
 
 /// The oracle: the object must be the direct conversion of the seed.
 fn judge(seed: &Seed, st: &St) -> Result<(), String> {
+    // a panic escaping from the library through any call below is a violation of this case, not a crash
+    guard_case(|| judge_unguarded(seed, st))
+}
+
+fn judge_unguarded(seed: &Seed, st: &St) -> Result<(), String> {
     if let Some(b) = &st.bad {
         return Err(b.clone());
     }
@@ -147,6 +152,14 @@ fn judge(seed: &Seed, st: &St) -> Result<(), String> {
 
 /// Apply one conversion edge.  `None` = edge not applicable to this variant.
 fn apply(seed: &Seed, st: &St, edge: usize, dirt: usize) -> Option<St> {
+    // a panic escaping from the library through a call that is not individually guarded is a bad state, not a crash
+    match guarded(|| apply_unguarded(seed, st, edge, dirt)) {
+        Ok(r) => r,
+        Err(p) => Some(St { obj: st.obj, normed: st.normed, bad: Some(format!("panic in conversion edge {}: {}", edge, p)) }),
+    }
+}
+
+fn apply_unguarded(seed: &Seed, st: &St, edge: usize, dirt: usize) -> Option<St> {
     let ok = |obj: Obj, normed: bool| Some(St { obj, normed, bad: None });
     let bad = |m: String| Some(St { obj: st.obj, normed: st.normed, bad: Some(m) });
     let n = st.normed;
@@ -277,8 +290,10 @@ impl Model for ConvModel {
     type Action = (usize, usize);
     fn init_states(&self) -> Vec<St> {
         // the seed as a long raw hash (always representable)
-        let h = LongRawFuzzyHash::new_from_internals_near_raw(self.seed.0, &self.seed.1, &self.seed.2);
-        vec![St { obj: Obj::RL(h), normed: false, bad: None }]
+        match guarded(|| LongRawFuzzyHash::new_from_internals_near_raw(self.seed.0, &self.seed.1, &self.seed.2)) {
+            Ok(h) => vec![St { obj: Obj::RL(h), normed: false, bad: None }],
+            Err(p) => vec![St { obj: Obj::RL(LongRawFuzzyHash::new()), normed: false, bad: Some(format!("panic while building the seed object: {}", p)) }],
+        }
     }
     fn actions(&self, _s: &St, a: &mut Vec<(usize, usize)>) {
         for e in 0..N_EDGES {
